@@ -133,8 +133,14 @@ def handleC06 (op : String) (input impl : Json) : Except String Json := do
         let v := implVal impl
         let exact := (fldD v "read" Json.null).compress == (jCommitRead c.obj c.time).compress
         let minute := (fldD v "read" Json.null).compress == (jCommitRead c.obj expT).compress
-        (if exact then [] else if minute then ["commit-time-zone-seconds"] else ["commit-roundtrip"]) ++
-        (if (fldD v "reencoded" Json.null).compress == (fldD v "bytes" Json.null).compress then [] else ["commit-reencode"])
+        -- a zone offset of 25 h or more is written but refused when read (known finding)
+        let over24 := match c.time with
+          | some (_, z) => z.natAbs ≥ 25 * 3600
+          | none => false
+        let unreadable := (fldD v "read" Json.null).compress == "\"err\""
+        (if exact then [] else if minute then ["commit-time-zone-seconds"]
+         else if over24 && unreadable then ["commit-time-zone-over-24h"] else ["commit-roundtrip"]) ++
+        (if (fldD v "reencoded" Json.null).compress == (fldD v "bytes" Json.null).compress || (over24 && unreadable) then [] else ["commit-reencode"])
       else []
     return reply mj (sameRes impl mj) viol
   | "hdr" =>
